@@ -267,11 +267,26 @@ def judge(case, obs):
     return None
 
 
+def typed_factory(ns, R, M):
+    """typed template with M free keys per role (so that duplicate keys under any spelling are inside): checker <=> schema"""
+    from harness import dmt
+
+    def build_env(eng):
+        t = T(eng, ns=ns)
+        d = dmt.dm_template(t, 'D', R=R, M=M, ver_kinds=('int', 'float'), thr_kinds=('int', 'float', 'bool'), extra_field=True)
+        return d, {'signatures': {}, 'signed': d['signed']}
+    def mk_case(eng, mm, desc, envelope):
+        return dict(scenario='checker', md=to_wire(conc(mm, envelope)), iso=iso_table(eng, mm))
+    return dmt.checker_lemma_factory(build_env, (ns, 'D'), mk_case)
+
+
 def units(tier):
     if tier == 'quick':
-        return [Unit('schema:M1R1', factory('s11', 1, 1), expect=('accepts', 'rejects:ValueError', 'rejects:TypeError'), max_witnesses=300)]
+        return [Unit('schema:M1R1', factory('s11', 1, 1), expect=('accepts', 'rejects:ValueError', 'rejects:TypeError'), max_witnesses=300),
+                Unit('typed:M2R1', typed_factory('t21', 1, 2), expect=('accepts', 'rejects'), max_witnesses=100)]
     return [Unit('schema:M2R1', factory('s21', 2, 1), expect=('accepts', 'rejects:ValueError', 'rejects:TypeError'), max_witnesses=1500),
-            Unit('schema:M1R2', factory('s12', 1, 2), expect=('accepts',), max_witnesses=1500)]
+            Unit('schema:M1R2', factory('s12', 1, 2), expect=('accepts',), max_witnesses=1500),
+            Unit('typed:M3R2', typed_factory('t32', 2, 3), expect=('accepts', 'rejects'), max_witnesses=300)]
 
 
 BOUNDS = dict(document='envelope of any JSON kind; signature map with 1 entry under a free key of <= 3 characters, entry = dict with optional signature (<=130 chars) / other_headers (<=4) / see_also (<=42) / one extra field, or any JSON kind; '
